@@ -36,12 +36,13 @@ type c18Case struct {
 	Shared     int         `json:"shared"`      // bugs existing before the workers start
 	KeepHandle bool        `json:"keep_handle"` // workers keep *BugCache handles across calls instead of resolving each time
 	CacheSize  int         `json:"cache_size"`  // 0 = default (no eviction at these sizes)
+	Delays     bool        `json:"delays,omitempty"` // inject sleeps/yields before cache lock acquisitions (hook, build tag verif)
 	Workers    [][]c18Call `json:"workers"`
 }
 
 func genC18(t *rapid.T) c18Case {
 	c := c18Case{Seed: rapid.Uint64().Draw(t, "seed"), Procs: rapid.SampledFrom([]int{1, 2, 4, 16}).Draw(t, "procs"),
-		Shared: rapid.IntRange(1, 4).Draw(t, "shared"), KeepHandle: rapid.Bool().Draw(t, "keep")}
+		Shared: rapid.IntRange(1, 4).Draw(t, "shared"), KeepHandle: rapid.Bool().Draw(t, "keep"), Delays: rapid.IntRange(0, 2).Draw(t, "delays") > 0}
 	nw := rapid.IntRange(2, Scale(8, 16)).Draw(t, "workers")
 	call := rapid.Custom(func(t *rapid.T) c18Call {
 		return c18Call{Kind: rapid.SampledFrom([]string{"new", "comment", "comment", "comment", "title", "open", "close", "label", "commit", "commit", "resolve", "query", "labels", "snapshot"}).Draw(t, "kind"),
@@ -103,6 +104,19 @@ func runC18(tb report.TB, rep *report.Reporter, c c18Case) {
 		rc.Bugs().SetCacheSize(c.CacheSize)
 	}
 	fail := func(sig, detail string) bool { return rep.Fail(tb, "C18/"+sig, detail, c) }
+	injected := 0
+	stopDelays := func() {}
+	if c.Delays {
+		stop := lockDelays(c.Seed)
+		stopped := false
+		stopDelays = func() {
+			if !stopped {
+				stopped = true
+				injected = stop()
+			}
+		}
+		defer stopDelays()
+	}
 
 	var wg sync.WaitGroup
 	var panics []string
@@ -220,6 +234,46 @@ func runC18(tb report.TB, rep *report.Reporter, c c18Case) {
 			return
 		}
 	}
+	stopDelays()
+	// ---- at quiescence the excerpt of every bug (what listings and queries use) describes the bug's current
+	// snapshot: an excerpt stored late by a slower concurrent notification must not survive
+	if c.CacheSize == 0 {
+		for _, id := range sortedIds(rc.Bugs().AllIds()) {
+			bc, err := rc.Bugs().Resolve(entity.Id(id))
+			if err != nil {
+				continue // reported below
+			}
+			got, err := rc.Bugs().ResolveExcerpt(entity.Id(id))
+			if err != nil {
+				if fail("excerpt-missing-after-the-run/"+Normalize(err.Error()), id+": "+err.Error()) {
+					return
+				}
+				continue
+			}
+			want := cache.NewBugExcerpt(bc)
+			var diffs []string
+			if got.Title != want.Title {
+				diffs = append(diffs, fmt.Sprintf("title %q, snapshot %q", got.Title, want.Title))
+			}
+			if got.Status != want.Status {
+				diffs = append(diffs, fmt.Sprintf("status %v, snapshot %v", got.Status, want.Status))
+			}
+			if got.LenComments != want.LenComments {
+				diffs = append(diffs, fmt.Sprintf("%d comments, snapshot %d", got.LenComments, want.LenComments))
+			}
+			if fmt.Sprint(got.Labels) != fmt.Sprint(want.Labels) {
+				diffs = append(diffs, fmt.Sprintf("labels %v, snapshot %v", got.Labels, want.Labels))
+			}
+			if got.EditLamportTime != want.EditLamportTime || got.EditUnixTime != want.EditUnixTime {
+				diffs = append(diffs, fmt.Sprintf("edit time %d/%d, snapshot %d/%d", got.EditLamportTime, got.EditUnixTime, want.EditLamportTime, want.EditUnixTime))
+			}
+			if len(diffs) > 0 {
+				if fail("stale-excerpt-after-concurrent-edits", fmt.Sprintf("bug %s, all workers done: the excerpt served by listings and queries is not the one of the current snapshot: %s", id, strings.Join(diffs, "; "))) {
+					return
+				}
+			}
+		}
+	}
 	// ---- everything acknowledged gets committed, then git must hold exactly that
 	for _, id := range sortedIds(rc.Bugs().AllIds()) {
 		bc, err := rc.Bugs().Resolve(entity.Id(id))
@@ -321,7 +375,7 @@ func runC18(tb report.TB, rep *report.Reporter, c c18Case) {
 	}
 	sort.Strings(shape)
 	rep.Case(fmt.Sprintf("w%d|p%d|keep%v|s%d|%s", len(c.Workers), c.Procs, c.KeepHandle, c.Shared, strings.Join(shape, ".")), sharedTouch > 0,
-		[]string{fmt.Sprintf("workers:%d", len(c.Workers)), fmt.Sprintf("gomaxprocs:%d", c.Procs), fmt.Sprintf("keep-handles:%v", c.KeepHandle)}, c)
+		[]string{fmt.Sprintf("workers:%d", len(c.Workers)), fmt.Sprintf("gomaxprocs:%d", c.Procs), fmt.Sprintf("keep-handles:%v", c.KeepHandle), fmt.Sprintf("lock-delays:%v", injected > 0)}, c)
 }
 
 func TestC18Concurrent(t *testing.T) {
